@@ -54,6 +54,12 @@ def Cell.values : Cell → List DTValue
   | .exprList vs => vs
   | _ => []
 
+/-- The default output value of a clause (`decision_table.rs:383-393`): defined when the cell
+evaluated to an expression list of exactly one value. -/
+def Cell.single : Cell → Option DTValue
+  | .exprList [v] => Option.some v
+  | _ => Option.none
+
 structure Table where
   hitPolicy : HitPolicy
   /-- names of the output clauses that have a `name` attribute (`decision_table.rs:287-289`) -/
@@ -89,13 +95,14 @@ def flattenCells : List Cell → List DTValue
 structure ETable where
   componentNames : List (List Char)
   outputValues : List DTValue
-  defaultOutputValues : List DTValue
+  /-- one per output clause; `some v` when the default output entry evaluated to exactly one value -/
+  defaultOutputValues : List (Option DTValue)
   rules : List ERule
   deriving Repr, Inhabited
 
 /-- `evaluate_parsed_decision_table`. -/
 def evalTable (t : Table) : ETable :=
-  ⟨t.componentNames, flattenCells t.outputValues, flattenCells t.defaultOutputs, t.rules.map evalRule⟩
+  ⟨t.componentNames, flattenCells t.outputValues, t.defaultOutputs.map Cell.single, t.rules.map evalRule⟩
 
 /-- `get_matching_rules`: `iter().filter(|r| r.matches).collect()`. -/
 def matching : List ERule → List ERule
@@ -172,14 +179,25 @@ def getResultsList (e : ETable) (rs : List ERule) : Outcome DTValue :=
   | .error m => .error m
   | .panic s => .panic s
 
-/-- `match self.default_output_values.len() { 0 => null, 1 => [0], _ => null }`. -/
-def pickDefault : List DTValue → DTValue
-  | [] => .null
-  | [v] => v
-  | _ :: _ :: _ => .null
+/-- The loop `result.set_entry(&self.component_names[i], value.clone().unwrap_or(null))` over the
+default output values (lengths are equal when it runs). -/
+def defaultLoop : List (List Char) → List (Option DTValue) → List (List Char × DTValue) → List (List Char × DTValue)
+  | n :: ns, d :: ds, acc => defaultLoop ns ds (ctxInsert n (d.getD .null) acc)
+  | _, _, acc => acc
 
-/-- `evaluate_default_output_value`. -/
-def defaultOutput (e : ETable) : DTValue := pickDefault e.defaultOutputValues
+/-- `evaluate_default_output_value` (`decision_table.rs:132-150`, since 620a0fd): null when no
+clause defines a default; for several output clauses the context of the clauses' defaults keyed
+by the component names; for one clause its default.  (`default_output_values[0]` cannot fail:
+the list is not empty when not all of its items are `None`.) -/
+def defaultOutput (e : ETable) : DTValue :=
+  if e.defaultOutputValues.all (·.isNone) then .null
+  else if e.defaultOutputValues.length > 1 then
+    if e.defaultOutputValues.length ≠ e.componentNames.length then .null
+    else .ctx (defaultLoop e.componentNames e.defaultOutputValues [])
+  else
+    match e.defaultOutputValues with
+    | d :: _ => d.getD .null
+    | [] => .null
 
 def hitUnique (e : ETable) : Outcome DTValue :=
   match matching e.rules with
@@ -375,18 +393,19 @@ def result (t : Table) (r : Rule) : DTValue :=
 
 /-- The default output entries that are defined, per clause. -/
 def defaults (t : Table) : List (Option DTValue) :=
-  t.defaultOutputs.map (fun c => match c with | .exprList [v] => some v | _ => none)
+  t.defaultOutputs.map Cell.single
 
 /-- No rule matches: the default output entry if one is defined, null otherwise; for several
 output clauses a context of the clauses' defaults keyed by the component names. -/
-def default (t : Table) : DTValue :=
-  match defaults t with
+def defaultOf (names : List (List Char)) : List (Option DTValue) → DTValue
   | [d] => d.getD .null
   | ds =>
     if ds.all (· = none) then .null
-    else if ds.length = t.componentNames.length then
-      .ctx (ctxOfPairs (t.componentNames.zip (ds.map (·.getD .null))))
+    else if ds.length = names.length then
+      .ctx (ctxOfPairs (names.zip (ds.map (·.getD .null))))
     else .null
+
+def default (t : Table) : DTValue := defaultOf t.componentNames (defaults t)
 
 /-- Priority rank of an output value: its position in the output values; values that are
 not listed rank after all listed ones. -/
